@@ -105,6 +105,7 @@ def evaluate(ctx, cases):
     for k, c in enumerate(cases):
         model, spec = ans[2 * k], ans[2 * k + 1]
         sigs, fs, fr = _rows(c['seed'], c['n'])
+        if c['seed'] % 4 == 2: fs = fs + 0.5          # a NON-INTEGER sampling rate (a decimated recording): the group hands it on as it is
         sigs = implutil.layout_nd(sigs, c['seed'])          # C / Fortran / read-only / strided memory layout
         if c['seed'] % 5 == 1: sigs = sigs.astype(np.float32)      # single-precision recordings: every row is analysed in ITS OWN precision
         delays = {}
@@ -151,6 +152,10 @@ def evaluate(ctx, cases):
                 if c['seed'] % 3 == 0:      # a buffer history: fitted on a buffer holding the rows in reverse order, the buffer is refilled IN PLACE, fitted again (same settings)
                     target = np.array(sigs[::-1])
                     implutil.quiet(bg.fit, target, fs, fr, axis=0, n_jobs=1)
+                    try:
+                        implutil.quiet(bg.recompute_edges, 0.0625)          # (a reduction is for that call only: the fit that follows uses the group's own thresholds)
+                    except Exception:
+                        pass
                     target[:] = sigs
                 implutil.quiet(bg.fit, target, fs, fr, axis=0, n_jobs=c['n_jobs'], progress=c['progress'])
                 res, models = bg.df_features, bg.models
